@@ -887,6 +887,9 @@ pub const REAL_PRIORS: &[(&str, &[&str])] = &[
     ("a fixed-depth search of a middlegame", &["position fen r1bq1rk1/ppp2ppp/2np1n2/2b1p3/2B1P3/2PP1N2/PP3PPP/RNBQ1RK1 w - - 0 7", "go depth 5"]),
     ("a timed search that ran out of time", &["position startpos", "go movetime 300"]),
     ("a timed search of a forced move", &["position fen 7k/8/8/8/8/8/6PP/r5K1 w - - 0 1", "go movetime 4000"]),
+    // whatever watches the first deadline (a thread, an alarm) must not be the one the second search listens to
+    ("a search that ended long before its time budget", &["position startpos", "go depth 1 movetime 8000"]),
+    ("two searches that ended long before their budgets", &["position startpos", "go depth 2 movetime 20000", "position startpos moves e2e4", "go depth 1 wtime 600000 btime 600000 winc 0 binc 0"]),
 ];
 
 pub const REAL_TARGETS: &[&str] = &[
